@@ -146,3 +146,71 @@ def _(c):
               " (not is_error(result)) == any(not is_error(m.can_assign(other, ctx)) for m in self.vals))", name="a_union_accepts_what_one_of_its_members_accepts")
     c.ensures("implies(isa(other, MultiValuedValue) and other is not NO_RETURN_VALUE,"
               " (not is_error(result)) == (len(other.vals) > 0 and all(not is_error(self.can_assign(m, ctx)) for m in other.vals)))", name="a_union_is_accepted_exactly_when_each_member_is")
+
+
+@contract("pyanalyze.value.AnnotatedValue.get_metadata_of_type", props=P)
+def _(c):
+    c.generator = True
+    c.returns("seq")
+    c.functional = True
+    c.unique_dispatch = True
+    c.loop(0, invariant=[("filtered_prefix", "all(isinst(r, typ) and exists(lambda j: 0 <= j and j < _k0 and same(r, self.metadata[j])) for r in _yielded)"
+                                             " and all(implies(isinst(self.metadata[j], typ), exists(lambda t: 0 <= t and t < len(_yielded) and same(_yielded[t], self.metadata[j]))) for j in range(_k0))")])
+    c.ensures("all(isinst(r, typ) and exists(lambda j: 0 <= j and j < len(self.metadata) and same(r, self.metadata[j])) for r in result)", name="only_matching_metadata")
+    c.ensures("all(implies(isinst(m, typ), exists(lambda t: 0 <= t and t < len(result) and same(result[t], m))) for m in self.metadata)", name="every_matching_item")
+
+
+@contract("pyanalyze.value.AnnotatedValue.can_assign", props=P)
+def _(c):
+    c.returns("val")
+    c.functional = True
+    c.fn_name = "can_assign"
+    c.loop(0, invariant=[("extensions_so_far_accept", "all(not is_error(_seq0[j].can_assign(other, ctx)) for j in range(_k0))"),
+                         ("extensions_so_far_include", "all(implies(static(_seq0[j]) and static(other), subset(other, _seq0[j])) for j in range(_k0))"),
+                         ("maps", "all(is_bounds_map(m) for m in bounds_maps)")])
+    c.ensures("is_error(result) or is_bounds_map(result)", name="error_or_bounds_map")
+    c.ensures("(not is_error(result)) == (not is_error(self.value.can_assign(other, ctx))"
+              " and all(not is_error(e.can_assign(other, ctx)) for e in self.get_metadata_of_type(Extension)))", name="accepts_iff_inner_type_and_every_extension_accept")
+    c.ensures(SOUND, name="sound")
+
+
+@contract("pyanalyze.value.AnnotatedValue.can_be_assigned", props=P)
+def _(c):
+    c.returns("val")
+    c.functional = True
+    c.fn_name = "can_be_assigned"
+    c.loop(0, invariant=[("maps", "all(is_bounds_map(m) for m in bounds_maps)")])
+    c.ensures("is_error(result) or is_bounds_map(result)", name="error_or_bounds_map")
+    c.ensures("implies(not is_error(result), not is_error(other.can_assign(self.value, ctx)))", name="the_inner_type_is_accepted")
+    c.ensures("implies(not is_error(result) and static(self) and static(other), subset(self, other))", name="sound")
+
+
+@contract("method:get_value", props=ALL, kind="assumed")
+def _(c):
+    c.param("self", "val")
+    c.returns("val")
+    c.functional = True
+    c.ensures("implies(isa(self, TypeAliasValue), same_members(result, self) and implies(static(self), static(result)))", name="an_alias_means_its_value")
+    c.assume("TypeAliasValue.get_value(): gamma(alias) is defined as gamma(alias.get_value()) (alias evaluation: annotations machinery, external to this property)")
+
+
+@contract("pyanalyze.value.TypeAliasValue.can_assign", props=P)
+def _(c):
+    c.returns("val")
+    c.functional = True
+    c.fn_name = "can_assign"
+    c.fieldspec("alias", "val")
+    c.ensures("is_error(result) or is_bounds_map(result)", name="error_or_bounds_map")
+    c.ensures("implies(not (isa(other, TypeAliasValue) and self.alias is other.alias), result is self.get_value().can_assign(other, ctx))", name="delegates_to_the_aliased_type")
+    c.ensures("implies(isa(other, TypeAliasValue) and self.alias is other.alias and self.type_arguments == other.type_arguments, not is_error(result))", name="same_alias_is_accepted")
+    c.ensures("implies(not (isa(other, TypeAliasValue) and self.alias is other.alias), " + SOUND + ")", name="sound")
+
+
+@contract("pyanalyze.value.TypeAliasValue.can_be_assigned", props=P)
+def _(c):
+    c.returns("val")
+    c.functional = True
+    c.fn_name = "can_be_assigned"
+    c.fieldspec("alias", "val")
+    c.ensures("implies(not (isa(other, TypeAliasValue) and self.alias is other.alias), result is other.can_assign(self.get_value(), ctx))", name="delegates_to_the_aliased_type")
+    c.ensures("implies(not (isa(other, TypeAliasValue) and self.alias is other.alias) and not is_error(result) and static(self) and static(other), subset(self, other))", name="sound")
